@@ -40,6 +40,7 @@ func (r *Run) mapStores(f *ssa.Function, isMap func(m ssa.Value) bool) map[strin
 
 func runC19(r *Run) {
 	const P = "C19"
+	r.checkSectionsListed(P)
 	// ---------------- metadata
 	if f := r.fn(P, pkgMetadata, "Metadata.CreateDocumentMetadata"); f != nil {
 		ff := r.E.Facts(f, core.Ctx{})
@@ -497,5 +498,101 @@ func stripIface(v ssa.Value) ssa.Value {
 		default:
 			return v
 		}
+	}
+}
+
+// checkSectionsListed (C19, "lists every service / every key"): in the outer
+// loop over the internal entries each completing iteration appends the external
+// entry exactly once to the list that is stored, under the section's name, in
+// the external document whenever that list is not empty.
+func (r *Run) checkSectionsListed(P string) {
+	for _, sp := range []struct{ fn, section, elemPrefix string }{
+		{"Transformer.processServices", "service", "new:document.Service"},
+		{"Transformer.processKeys", "verificationMethod", "new:document.PublicKey"},
+	} {
+		f := r.fn(P, pkgDidTrans, sp.fn)
+		if f == nil {
+			continue
+		}
+		ff := r.E.Facts(f, core.Ctx{})
+		var head *ssa.BasicBlock
+		for _, h := range allLoopHeads(f) {
+			if head == nil || h.Index < head.Index {
+				head = h
+			}
+		}
+		id := P + ".listed." + sp.section
+		why := "an entry that is built but not appended, or a list that is not stored, silently disappears from the external document"
+		if head == nil {
+			r.R.Unk(id, "anchor", core.FuncName(f), r.where(f), why, "no loop over the internal entries")
+			continue
+		}
+		var listAppend *ssa.Call
+		bad, n := 0, 0
+		for _, ip := range loopIterationPaths(ff, head, 20000) {
+			if ip.Ret != nil {
+				continue
+			}
+			n++
+			cnt := 0
+			for _, b := range ip.Blocks[:len(ip.Blocks)-1] {
+				for _, ins := range b.Instrs {
+					if c, ok := ins.(*ssa.Call); ok && isBuiltin(c, "append") && len(c.Common().Args) == 2 {
+						for _, e := range variadicElems(c.Common().Args[1]) {
+							if strings.HasPrefix(ff.TB.Of(stripIface(e)).String(), sp.elemPrefix) {
+								cnt++
+								listAppend = c
+							}
+						}
+					}
+				}
+			}
+			if cnt != 1 {
+				bad++
+			}
+		}
+		r.R.Check(bad == 0 && n > 0, id+".append", "E8 exactly-once: every completing iteration over the internal entries appends the external entry once", core.FuncName(f), r.where(f), why,
+			fmt.Sprintf("%d iteration paths, one append each", n), fmt.Sprintf("%d of %d iteration paths do not append the external entry exactly once", bad, n))
+		// the stored list is the one the entries were appended to, stored under the section name, skipped only when empty
+		okStore := false
+		det := "no store of the list under \"" + sp.section + "\""
+		for _, b := range f.Blocks {
+			for _, ins := range b.Instrs {
+				mu, ok := ins.(*ssa.MapUpdate)
+				if !ok || trimQ(ff.TB.Of(mu.Key).String()) != sp.section {
+					continue
+				}
+				fromList := false
+				for _, l := range phiLeaves(stripIface(mu.Value)) {
+					if listAppend != nil && l == ssa.Value(listAppend) {
+						fromList = true
+					}
+				}
+				if !fromList {
+					det = "the value stored under \"" + sp.section + "\" is not the list the entries were appended to"
+					continue
+				}
+				// bypassed only across len(list) == 0
+				okStore = true
+				for _, ri := range ff.Returns() {
+					if reachesAvoiding(ff, f.Blocks[0].Instrs[0], ri.Ret, func(a, bb *ssa.BasicBlock) bool {
+						if bb == mu.Block() {
+							return true
+						}
+						for _, fc := range ff.EdgeFacts(a, bb) {
+							set := core.FactSet{fc.Key(): fc}
+							if core.HasFact(set, "cmp(len(_) == 0)") {
+								return true
+							}
+						}
+						return false
+					}) && ri.Class == core.RetSuccess {
+						okStore = false
+						det = "the store can be bypassed although the list is not empty"
+					}
+				}
+			}
+		}
+		r.R.Check(okStore, id+".store", "E5/E8: the appended list is stored under \""+sp.section+"\" and the store is bypassed only across len(list) = 0", core.FuncName(f), r.where(f), why, "stored", det)
 	}
 }
